@@ -189,6 +189,9 @@ CATALOG: List[Cfg] = [
     _c("binpack-5", "bin_pack",
        "BinPack(G.bin_pack.RandomGenerator(5, 10, split_num_same_items=2), obs_num_ems=6)",
        keys_quick=1, keys_thorough=3, horizon="5", max_states_quick=400),
+    _c("binpack-5-ems2-sparse", "bin_pack", "BinPack(G.bin_pack.RandomGenerator(5, 10, split_num_same_items=2), "
+       "obs_num_ems=2, normalize_dimensions=False, reward_fn=R.bin_pack.SparseReward())", kind="awkward",
+       keys_quick=1, keys_thorough=2, horizon="5", max_states_quick=400),
     _c("binpack-toy-ems3", "bin_pack", "BinPack(G.bin_pack.ToyGenerator(), obs_num_ems=3, "
        "normalize_dimensions=False, reward_fn=R.bin_pack.SparseReward())",
        kind="awkward", depth=3, keys_quick=1, keys_thorough=1, horizon="20", max_states_quick=300, quick=False),
@@ -200,13 +203,19 @@ CATALOG: List[Cfg] = [
     _c("flatpack-1x3-block", "flat_pack", "FlatPack(G.flat_pack.RandomFlatPackGenerator(1, 3), "
        "reward_fn=R.flat_pack.BlockDenseReward())", kind="awkward", keys_quick=1, keys_thorough=3,
        horizon="3"),
+    _c("flatpack-2x1", "flat_pack", "FlatPack(G.flat_pack.RandomFlatPackGenerator(2, 1))", kind="awkward",
+       keys_quick=2, keys_thorough=4, horizon="2"),
+    _c("flatpack-toy-rot", "flat_pack", "FlatPack(G.flat_pack.ToyFlatPackGeneratorWithRotation())", kind="awkward",
+       keys_quick=1, keys_thorough=1, horizon="4", quick=False),
     _c("flatpack-default", "flat_pack", "FlatPack()", kind="default", depth=1, keys_quick=1,
        keys_thorough=1, horizon="25", quick=False),
     # ---------------- JobShop
     _c("jobshop-2222", "job_shop", "JobShop(G.job_shop.RandomGenerator(2, 2, 2, 2))",
        keys_quick=3, keys_thorough=8, horizon="8"),
     _c("jobshop-3223", "job_shop", "JobShop(G.job_shop.RandomGenerator(3, 2, 2, 3))",
-       keys_quick=1, keys_thorough=4, horizon="18"),
+       keys_quick=2, keys_thorough=4, horizon="18"),
+    _c("jobshop-3332", "job_shop", "JobShop(G.job_shop.RandomGenerator(3, 3, 3, 2))", kind="awkward",
+       keys_quick=1, keys_thorough=3, horizon="18", quick=False),
     _c("jobshop-2311", "job_shop", "JobShop(G.job_shop.RandomGenerator(2, 3, 1, 1))",
        kind="awkward", keys_quick=1, keys_thorough=3, horizon="2"),
     _c("jobshop-toy", "job_shop", "JobShop(G.job_shop.ToyGenerator())", kind="awkward", depth=2,
@@ -230,6 +239,8 @@ CATALOG: List[Cfg] = [
        time_limit=2),
     _c("tetris-6x5-T1", "tetris", "Tetris(6, 5, 1)", kind="awkward", keys_quick=1, keys_thorough=3,
        time_limit=1),
+    _c("tetris-8x4-T3", "tetris", "Tetris(8, 4, 3)", kind="awkward", keys_quick=1, keys_thorough=2, time_limit=3,
+       quick=False),
     _c("tetris-default", "tetris", "Tetris()", kind="default", depth=2, keys_quick=1, keys_thorough=2,
        time_limit=400),
     # ---------------- Cleaner
@@ -241,6 +252,10 @@ CATALOG: List[Cfg] = [
        kind="awkward", keys_quick=2, keys_thorough=6, time_limit=3),
     _c("cleaner-2x2x3-none", "cleaner", "Cleaner(G.cleaner.RandomGenerator(2, 2, 3))", kind="awkward",
        keys_quick=1, keys_thorough=3, time_limit=4),
+    _c("cleaner-2x4x1-none", "cleaner", "Cleaner(G.cleaner.RandomGenerator(2, 4, 1))", kind="awkward",
+       keys_quick=2, keys_thorough=4, time_limit=8, depth=9),
+    _c("cleaner-4x2x1-none", "cleaner", "Cleaner(G.cleaner.RandomGenerator(4, 2, 1))", kind="awkward",
+       keys_quick=2, keys_thorough=4, time_limit=8, depth=9),
     _c("cleaner-default", "cleaner", "Cleaner()", kind="default", depth=2, keys_quick=1,
        keys_thorough=2, time_limit=100),
     # ---------------- Connector
